@@ -1208,3 +1208,81 @@ def rf152(run):
                           'the names keep pointing into the string table of the old context, and after MIR_finish (old_ctx) printing, writing or '
                           'linking the moved module reads freed memory' % (rec, fld), line=f.line)
     return n
+
+
+# ---------------------------------------------------------------------------------------------
+# RF164: a macro call under construction is not on the macro call stack
+# ---------------------------------------------------------------------------------------------
+
+def rf164(run):
+    import rf_proto
+    rule = 'RF164'
+    run.rule(rule, 'c2mir preprocessor: find_args pops the *top* of macro_call_stack when the argument list runs past the end of the enclosing '
+                   'macro\'s replacement (`#define G F (41` … `G)`), and pop_macro_call frees what it pops.  The call whose arguments are '
+                   'being collected is therefore pushed only after find_args has returned: in every function that hands a macro call to '
+                   'find_args, no push of that object (directly, or by a helper that creates and pushes it) reaches the find_args call')
+    tu = run.tu('c2mir')
+    PUSH = 'VARR_macro_call_tpush'
+    # find_args can pop
+    run.control(rule, 'find_args reaches pop_macro_call', 'pop_macro_call' in tu.reachable(['find_args']))
+    # helpers that return an object they pushed
+    pushing_helpers = set()
+    for g in tu.func_list:
+        if g.body is None or not g.file.startswith('/repo'):
+            continue
+        pushed = set()
+        for x in g.walk():
+            if x['k'] == 'CallExpr' and x.get('callee') == PUSH:
+                a = F.call_args(x)
+                if len(a) >= 2 and 'macro_call_stack' in F.src(a[0]):
+                    pushed.add(F.src(F.strip(a[1])))
+        if pushed and any(x['k'] == 'ReturnStmt' and F.kids(x) and F.src(F.strip(F.kids(x)[0])) in pushed for x in g.walk()):
+            pushing_helpers.add(g.name)
+    n = 0
+    for g in tu.func_list:
+        if g.body is None or not g.file.startswith('/repo') or g.name == 'find_args':
+            continue
+        fa = [x for x in g.walk() if x['k'] == 'CallExpr' and x.get('callee') == 'find_args']
+        if not fa:
+            continue
+        cfg = g.cfg
+        run.functions_analysed.add(('c2mir', g.name))
+        for c in fa:
+            mc = F.src(F.strip(F.call_args(c)[1]))
+            cb = cfg.block_of(c)
+            push_blocks = {}
+            for b, B in cfg.blocks.items():
+                for k, el in enumerate(B.elems):
+                    for y in F.walk(el):
+                        if y['k'] == 'CallExpr' and y.get('callee') == PUSH and len(F.call_args(y)) >= 2 and \
+                                'macro_call_stack' in F.src(F.call_args(y)[0]) and F.src(F.strip(F.call_args(y)[1])) == mc:
+                            push_blocks.setdefault(b, []).append((k, y['l'], 'pushed'))
+                        if y['k'] == 'BinaryOperator' and y['op'] == '=' and F.src(F.strip(y['c'][0])) == mc and \
+                                F.strip(y['c'][1])['k'] == 'CallExpr' and F.strip(y['c'][1]).get('callee') in pushing_helpers:
+                            push_blocks.setdefault(b, []).append((k, y['l'], 'created and pushed by %s' % F.strip(y['c'][1])['callee']))
+            bad = None
+            for b, lst in push_blocks.items():
+                if b == cb:
+                    # same block: order of the elements
+                    ck = next((k for k, el in enumerate(cfg.blocks[cb].elems) if any(y is c for y in F.walk(el))), None)
+                    for k, l, how in lst:
+                        if ck is not None and k <= ck and l <= c['l']:
+                            bad = (l, how)
+                    # a loop may also bring the push in front of the call
+                    if bad is None and cb in cfg.reachable_from(cb, avoid=lambda bb: False) - {cb} and any(cb in cfg.live_succs(p_) for p_ in cfg.reachable_from(cb)):
+                        pass
+                elif cb in cfg.reachable_from(b):
+                    bad = (lst[0][1], lst[0][2])
+            n += 1
+            ok = bad is None
+            run.ob(rule, (g.name, c['l']), ok, {'site': '%s:%d %s' % (g.relfile(), c['l'], g.name), 'macro call': mc,
+                                               'pushes of it in the function': sum(len(v) for v in push_blocks.values())})
+            if not ok:
+                run.violation(rule, g, 'macro call on the stack while its arguments are read', '%s hands `%s` to find_args (line %d) after it was %s '
+                              '(line %d): when the argument list leaves the enclosing macro\'s replacement, find_args pops and frees the '
+                              'top of the stack — this very call — and goes on writing its `args`' % (g.name, mc, c['l'], bad[1], bad[0]), line=c['l'])
+    run.control(rule, 'find_args call sites found', n >= 1)
+    npush = sum(1 for g in tu.func_list if g.body is not None for x in g.walk()
+                if x['k'] == 'CallExpr' and x.get('callee') == PUSH and 'macro_call_stack' in F.src(F.call_args(x)[0]))
+    run.control(rule, 'pushes onto macro_call_stack seen', npush >= 2)
+    return n
